@@ -73,17 +73,31 @@ From CM Require Import Model.Readers Model.Sarif Spec.ReadersSpec Spec.SarifSpec
 
 Definition C12_sonar_statement (v : sonar_select) : Prop :=
   match v with
-  | IssuesPlusHotspots => forall doc, wf_sonar doc = true -> sonar_reader v doc = sonar_spec doc
+  | IssuesPlusHotspotsPerEntry =>
+      (* any document whose container has the right shape: exactly the individually readable open entries *)
+      (forall doc, wf_container doc = true -> sonar_reader v doc = sonar_spec_robust doc) /\
+      (forall doc, wf_sonar doc = true -> sonar_reader v doc = sonar_spec doc)
+  | IssuesPlusHotspots =>
+      (forall doc, wf_sonar doc = true -> sonar_reader v doc = sonar_spec doc) /\
+      (* ... but one malformed entry discards the readable findings of the whole file *)
+      (exists doc, wf_container doc = true /\ length (sonar_spec_robust doc) = 1 /\ sonar_reader v doc = [])
   | IssuesOrElse => exists doc, wf_sonar doc = true /\ sonar_reader v doc <> sonar_spec doc
   end.
 Lemma C12_sonar_all v : C12_sonar_statement v.
-Proof. destruct v; simpl; [exists w_doc; exact sonar_pinned_refuted | exact sonar_reader_spec]. Qed.
+Proof.
+  destruct v; simpl.
+  - exists w_doc; exact sonar_pinned_refuted.
+  - split; [exact sonar_reader_spec | exists w_doc_mal; exact sonar_perfile_refuted].
+  - split; [exact sonar_reader_robust | exact sonar_reader_spec_per_entry].
+Qed.
 Theorem C12_sonar_reader : C12_sonar_statement sonar_select_expr.
 Proof. exact (C12_sonar_all sonar_select_expr). Qed.
 Print Assumptions C12_sonar_reader.
 
-Example C12_sonar_example : wf_sonar w_doc = true /\ length (sonar_spec w_doc) = 2.
-Proof. split; vm_compute; reflexivity. Qed.
+Example C12_sonar_example :
+  wf_sonar w_doc = true /\ length (sonar_spec w_doc) = 2 /\
+  wf_container w_doc_mal = true /\ wf_sonar w_doc_mal = false /\ length (sonar_spec_robust w_doc_mal) = 1.
+Proof. repeat split; vm_compute; reflexivity. Qed.
 
 (** SARIF and DefectDojo readers, full statement: a reader either raises -- exactly when some run, result or location
     is individually unreadable ([readable_*], Spec/SarifSpec.v) -- or files exactly the reference extraction: every
